@@ -30,16 +30,17 @@ type lifeOp struct {
 }
 
 type lifeScn struct {
-	K       int      `json:"k"`
-	Answers bool     `json:"answers"`        // does the peer answer the logout
-	Late    bool     `json:"late,omitempty"` // ... after 300 ms
-	Chan    int      `json:"chan,omitempty"` // 0 or 1
-	Watch   int      `json:"watch,omitempty"` // watchdog in ms (default 1500)
-	Burst   bool     `json:"burst,omitempty"` // the calls are started back to back, without letting each one settle
-	Extra   int      `json:"extra,omitempty"` // further logical channels opened before the one under observation
-	LogoutAnswer string `json:"logoutanswer,omitempty"` // what the peer answers the logout with: "" = DONE(final), ret / eed / ack = another package
-	SlowFirst int    `json:"slowfirst,omitempty"` // the transport takes this many ms for the first request packet it is given (a slow network write)
-	Ops     []lifeOp `json:"ops"`
+	K             int      `json:"k"`
+	Answers       bool     `json:"answers"`                 // does the peer answer the logout
+	Late          bool     `json:"late,omitempty"`          // ... after 300 ms
+	Chan          int      `json:"chan,omitempty"`          // 0 or 1
+	Watch         int      `json:"watch,omitempty"`         // watchdog in ms (default 1500)
+	Burst         bool     `json:"burst,omitempty"`         // the calls are started back to back, without letting each one settle
+	Extra         int      `json:"extra,omitempty"`         // further logical channels opened before the one under observation
+	LogoutAnswer  string   `json:"logoutanswer,omitempty"`  // what the peer answers the logout with: "" = DONE(final), ret / eed / ack = another package
+	NoReadTimeout bool     `json:"noreadtimeout,omitempty"` // Info.PacketReadTimeout = 0 (no read deadline on the transport)
+	SlowFirst     int      `json:"slowfirst,omitempty"`     // the transport takes this many ms for the first request packet it is given (a slow network write)
+	Ops           []lifeOp `json:"ops"`
 }
 
 type lifeRun struct {
@@ -151,6 +152,9 @@ func runLife(tr *Tracer, cur *int64, scn *lifeScn) {
 	r.mc = newMemConn()
 	info := newInfo()
 	info.ChannelPackageQueueSize = scn.K
+	if scn.NoReadTimeout {
+		info.PacketReadTimeout = 0
+	}
 	connCtx, connCancel := context.WithCancel(context.Background())
 	r.ctxs["bg"] = context.Background()
 	cc, c := context.WithCancel(context.Background())
@@ -360,6 +364,23 @@ func runLife(tr *Tracer, cur *int64, scn *lifeScn) {
 				return lifeOutcome(err), Ev{"wrote": int(atomic.LoadInt64(&r.wrote) - before)}
 			})
 			settle()
+		case "flush", "queue":
+			// the other entry points of the send side: every call on a closed channel reports the closed condition
+			api := op.Op
+			r.start("send", op, func(ctx context.Context) (string, Ev) {
+				before := atomic.LoadInt64(&r.wrote)
+				var err error
+				if api == "flush" {
+					err = ch.SendRemainingPackets(ctx)
+				} else {
+					err = ch.QueuePackage(ctx, &tds.LanguagePackage{Cmd: "select 1"})
+					if err == nil {
+						err = ch.SendRemainingPackets(ctx)
+					}
+				}
+				return lifeOutcome(err), Ev{"wrote": int(atomic.LoadInt64(&r.wrote) - before), "api": api}
+			})
+			settle()
 		case "cancel":
 			r.emit(Ev{"ev": "Cancel", "ctx": op.Ctx})
 			r.cancels[op.Ctx]()
@@ -434,7 +455,7 @@ func runLife(tr *Tracer, cur *int64, scn *lifeScn) {
 			}
 			isClose := call == "close" || call == "connclose"
 			if (pass == 0) == isClose {
-				r.emit(Ev{"ev": "Hung", "id": id, "call": call})
+				r.emit(Ev{"ev": "Hung", "id": id, "call": call, "waited": watch})
 			}
 		}
 	}
@@ -458,6 +479,7 @@ func lifeMain(args []string) error {
 	directed := fs.Bool("directed", false, "directed scenarios (fill levels, cancel / close interleavings)")
 	count := fs.Int("count", 0, "random scenarios")
 	slow := fs.Bool("slow", false, "include the peer that never answers the logout (about 60 s)")
+	slowOnly := fs.Bool("slowonly", false, "only the scenarios with a peer that never answers the logout (Close returns after the logout's own minute)")
 	logoutOnly := fs.Bool("logoutonly", false, "of the directed scenarios only those in which the peer answers the logout with another package than DONE (C10)")
 	part := fs.Int("part", 0, "process index")
 	parts := fs.Int("parts", 1, "processes")
@@ -578,6 +600,9 @@ func lifeMain(args []string) error {
 			scns = append(scns, lifeScn{K: k, Answers: true, Chan: 1, Extra: 2, Ops: []lifeOp{{Op: "closeother", N: 0}, {Op: "connclose"}, {Op: "next"}, {Op: "send"}}})
 			scns = append(scns, lifeScn{K: k, Answers: true, Chan: 1, Extra: 3, Ops: []lifeOp{{Op: "closeother", N: 1}, {Op: "closeother", N: 0}, {Op: "connclose"}, {Op: "next", Wait: bp(false)}}})
 			// Close while a send is still inside its transport write
+			// every entry point of the send side on a closed channel, and with a cancelled context
+			scns = append(scns, lifeScn{K: k, Answers: true, Chan: 1, Ops: []lifeOp{{Op: "flush"}, {Op: "queue"}, {Op: "close"}, {Op: "flush"}, {Op: "queue"}, {Op: "send"}}})
+			scns = append(scns, lifeScn{K: k, Answers: true, Ops: []lifeOp{{Op: "queue", Ctx: "cancelled"}, {Op: "flush", Ctx: "cancelled"}, {Op: "connclose"}, {Op: "flush"}, {Op: "queue"}}})
 			// the teardown packet cannot be sent: the channel is closed all the same
 			scns = append(scns, lifeScn{K: k, Answers: true, Chan: 1, Ops: []lifeOp{{Op: "next"}, {Op: "failwrite"}, {Op: "close"}, {Op: "next"}, {Op: "send"}, {Op: "close"}}})
 			scns = append(scns, lifeScn{K: k, Answers: true, Chan: 1, Extra: 2, Ops: []lifeOp{{Op: "peer", N: 1}, {Op: "failwrite"}, {Op: "connclose"}, {Op: "next"}, {Op: "next"}, {Op: "send"}}})
@@ -589,6 +614,15 @@ func lifeMain(args []string) error {
 		if *slow {
 			scns = append(scns, lifeScn{K: 2, Answers: false, Watch: 66000, Ops: []lifeOp{{Op: "close"}, {Op: "next"}}})
 		}
+	}
+	if *slowOnly {
+		// a peer that never answers the logout: Close comes back when the logout's own bound (one minute) is over,
+		// whatever the read timeout of the transport is - also none at all
+		scns = nil
+		scns = append(scns, lifeScn{K: 2, Answers: false, Watch: 66000, Ops: []lifeOp{{Op: "close"}, {Op: "next"}}})
+		scns = append(scns, lifeScn{K: 2, Answers: false, NoReadTimeout: true, Watch: 66000, Ops: []lifeOp{{Op: "close"}, {Op: "next"}}})
+		scns = append(scns, lifeScn{K: 2, Answers: false, NoReadTimeout: true, Chan: 1, Watch: 66000, Ops: []lifeOp{{Op: "connclose"}, {Op: "next"}}})
+		*count = 0
 	}
 	for i := 0; i < *count; i++ {
 		k := 1 + rng.Intn(3)
